@@ -19,7 +19,7 @@ def sh(cmd, cwd=None, env=None, timeout=1800):
 
 
 def clean():
-    sh(['git', 'checkout', '--', '.'], cwd=repo)
+    sh(['git', 'reset', '-q', '--hard', 'HEAD'], cwd=repo)
     sh(['git', 'clean', '-fdq', 'pedantic'], cwd=repo)
 
 
